@@ -8,6 +8,8 @@
 From Coq Require Import List NArith ZArith Bool.
 Import ListNotations.
 Require Import Codec CodecProofs JsonIn JsonInProofs JsonInst Vocab.
+Require Cli CliProofs.
+Import Cli.
 Local Open Scope N_scope.
 
 (* the three notations are equivalent: a request tree written with ANY admissible choice of notation per node
@@ -44,5 +46,22 @@ Example C12_nonvacuous :
   parse_requests (JArr [JArr [JNum (Some 16777221%Z) true None None; JStr [85;73;110;116;49;54] None; JNum (Some 70000%Z) true None None]]) = Err _.
 Proof. vm_compute. split; reflexivity. Qed.
 
+(* "... is rejected with an error and no request is transmitted": in the command model (theories/Cli.v - the whole request text
+   is interpreted before the first call, with or without -splitrequests) a text the parser rejects ends the run with status 1,
+   nothing on standard output, and not a single event on any connection - no dial, no authentication, no request - whatever the
+   flags, the output format, the split option and the device's script *)
+Theorem C12_rejected_nothing_sent : forall yneg i conns j,
+  ci_help i = false -> ci_version i = false -> ci_request i = Some j -> parse_requests j = JsonIn.Err _ ->
+  snd (cli_main yneg i conns) = [] /\ status (fst (cli_main yneg i conns)) = 1 /\ stdout_doc (fst (cli_main yneg i conns)) = None.
+Proof.
+  intros yneg i conns j Hh Hv Hr Hp. split.
+  - apply CliProofs.C15_nothing_sent. do 8 right. exists j. split; assumption.
+  - unfold cli_main. rewrite Hh, Hv. cbn [orb].
+    destruct (ci_flag_error i); [split; reflexivity|].
+    destruct (is_empty (ci_host i) || is_empty (ci_user i) || is_empty (ci_pass i) || is_empty (ci_key i)); [split; reflexivity|].
+    rewrite Hr, Hp. split; reflexivity.
+Qed.
+
 Print Assumptions C12_notations. Print Assumptions C12_value_exact. Print Assumptions C12_int_exact.
 Print Assumptions C12_non_integral_rejected. Print Assumptions C12_not_array.
+Print Assumptions C12_rejected_nothing_sent.
